@@ -152,7 +152,7 @@ Definition regs_response (fc : N) (r : (list N + N) * list event) : list N * lis
 Definition write_response (fc : N) (res : option N) (echo : list N) : list N :=
   match res with None => fc :: echo | Some ex => exception_pdu fc ex end.
 
-(* the one handler call a write makes on unit u *)
+(* the one handler call a write makes on the handler object with index u *)
 Definition write_call (u : N) (r : request) : list event :=
   match r with
   | WriteSingleCoil a v => [EvWriteSingleCoil u a v]
@@ -170,7 +170,8 @@ Definition apply_write (st : St) (r : request) : St * option N :=
   | _ => (st, None)
   end.
 
-(* executing a valid request against unit u in state st: new state, response PDU, calls made *)
+(* executing a valid request against the handler object with index u in state st: new state,
+   response PDU, calls made *)
 Definition ref_exec (fc u : N) (st : St) (r : request) : St * list N * list event :=
   match r with
   | ReadCoils s n =>
@@ -192,13 +193,15 @@ Definition ref_exec (fc u : N) (st : St) (r : request) : St * list N * list even
       let '(st', res) := apply_write st r in (st', write_response fc res (be s ++ be (N.of_nat (length vs))), write_call u r)
   end.
 
-(* a broadcast write is applied once to every configured unit, in unit id order; results dropped *)
-Fixpoint apply_all (units : list (N * St)) (r : request) : list (N * St) * list event :=
-  match units with
-  | [] => ([], [])
-  | (u, st) :: rest =>
-      let '(rest', log) := apply_all rest r in
-      ((u, fst (apply_write st r)) :: rest', write_call u r ++ log)
+(* a broadcast write is applied to every configured unit id in turn, in unit id order, results
+   dropped. Each unit id's write goes to the handler object that unit id is mapped to, so an object
+   serving k unit ids sees the write k times, each on the state the previous one left. *)
+Fixpoint apply_all (m : list (N * N)) (g : N -> St) (r : request) : (N -> St) * list event :=
+  match m with
+  | [] => (g, [])
+  | (_, h) :: rest =>
+      let '(g', log) := apply_all rest (sset g h (fst (apply_write (g h) r))) r in
+      (g', write_call h r ++ log)
   end.
 
 (* ---------------------------------------------------------------- framing of a reply *)
@@ -218,11 +221,11 @@ Definition authorize (a : auth) (u : N) (r : request) : bool * list event :=
   end.
 
 (* reply bytes (nil = silence), unit states afterwards, application calls *)
-Definition ref_handle_frame (l : link) (a : auth) (units : list (N * St)) (fr : frame)
-  : list N * list (N * St) * list event :=
+Definition ref_handle_frame (l : link) (a : auth) (units : ucfg St) (fr : frame)
+  : list N * ucfg St * list event :=
   (* only a frame addressed to a configured unit id is ever answered (C17), with one exception:
      the authorization veto comes before the unit lookup (C08, the carve-out C01 mentions) *)
-  let served := match f_dest fr with DUnit u => match lookup u units with Some _ => true | None => false end | DBroadcast => false end in
+  let served := match f_dest fr with DUnit u => match lookup u (u_map units) with Some _ => true | None => false end | DBroadcast => false end in
   let answer pdu := if served then adu l (f_tx fr) (dest_value (f_dest fr)) pdu else [] in
   match decode (f_pdu fr) with
   | Empty => ([], units, [])
@@ -234,21 +237,22 @@ Definition ref_handle_frame (l : link) (a : auth) (units : list (N * St)) (fr : 
         ((if dest_is_broadcast (f_dest fr) then [] else adu l (f_tx fr) (dest_value (f_dest fr)) (exception_pdu fc 1)), units, alog)
       else match f_dest fr with
            | DUnit u =>
-               match lookup u units with
+               match lookup u (u_map units) with
                | None => ([], units, alog)
-               | Some st =>
-                   let '(st', pdu, log) := ref_exec fc u st r in
-                   (adu l (f_tx fr) u pdu, update u st' units, alog ++ log)
+               | Some h =>
+                   let '(st', pdu, log) := ref_exec fc h (u_store units h) r in
+                   (adu l (f_tx fr) u pdu, with_store units (sset (u_store units) h st'), alog ++ log)
                end
            | DBroadcast =>
-               if is_write r then let '(units', log) := apply_all units r in ([], units', alog ++ log)
+               if is_write r then
+                 let '(g', log) := apply_all (u_map units) (u_store units) r in ([], with_store units g', alog ++ log)
                else ([], units, alog)
            end
   end.
 
 (* ---------------------------------------------------------------- a connection *)
-Fixpoint ref_session (l : link) (a : auth) (units : list (N * St)) (frames : list frame)
-  : list (list N) * list (N * St) * list event :=
+Fixpoint ref_session (l : link) (a : auth) (units : ucfg St) (frames : list frame)
+  : list (list N) * ucfg St * list event :=
   match frames with
   | [] => ([], units, [])
   | fr :: rest =>
@@ -267,20 +271,20 @@ Definition read_calls (u : N) (st : St) (r : request) : list event :=
   | _ => []
   end.
 
-(* one write call for a valid, permitted write to a configured unit (one per configured unit for a
-   broadcast write); the ascending prefix start .. first failing address for a valid, permitted
+(* one write call for a valid, permitted write to a configured unit (one per configured unit id for a
+   broadcast write, on the handler object that unit id maps to); the ascending prefix start .. first failing address for a valid, permitted
    read of a configured unit; nothing otherwise *)
-Definition spec_calls (a : auth) (units : list (N * St)) (fr : frame) : list event :=
+Definition spec_calls (a : auth) (units : ucfg St) (fr : frame) : list event :=
   match decode (f_pdu fr) with
   | Valid _ r =>
       if fst (authorize a (dest_value (f_dest fr)) r) then
         match f_dest fr with
         | DUnit u =>
-            match lookup u units with
+            match lookup u (u_map units) with
             | None => []
-            | Some st => if is_write r then write_call u r else read_calls u st r
+            | Some h => if is_write r then write_call h r else read_calls h (u_store units h) r
             end
-        | DBroadcast => if is_write r then flat_map (fun us => write_call (fst us) r) units else []
+        | DBroadcast => if is_write r then flat_map (fun uh => write_call (snd uh) r) (u_map units) else []
         end
       else []
   | _ => []
